@@ -47,6 +47,7 @@ func runC13(c *Ctx, r *Report) {
 	c13NumberClass(c, r, "C13-f/number-class")
 	c13NaNOrder(c, r, "C13-b/nan-order")
 	c13BothDirections(c, r, "C13-d/both-directions")
+	c13TimePrecision(c, r, "C13-g/time-precision")
 }
 
 func runC03(c *Ctx, r *Report) {
